@@ -38,6 +38,12 @@ fn main() {
                 writeln!(out, "{}", gram::generate(&line)).unwrap();
             }
         }
+        "unescape" => {
+            for line in stdin.lock().lines() {
+                let line = line.unwrap();
+                writeln!(out, "{}", gram::unescape_cmd(&line)).unwrap();
+            }
+        }
         "meta" => {
             for line in stdin.lock().lines() {
                 let line = line.unwrap();
